@@ -124,13 +124,19 @@ def run_case(case, tmp):
         recs.append({"stream": stream, "content": content, "reads": [list(x) for x in pairs], "fed": fed, "api": api, "alg": alg,
                      "model_match": digest == ref_digest(alg, exp), "raw_match": digest == ref_digest(alg, data),
                      "norm_match": digest == ref_digest(alg, lf), "lf_equal": (lf_digest == digest) if lf_digest is not None else True,
-                     "out_ok": bool(out_ok), "count_ok": bool(count_ok), "one_read": bool(one_read)})
+                     "out_ok": bool(out_ok), "count_ok": bool(count_ok), "one_read": bool(one_read), "peek_ok": True})
 
     for alg in algs:
         # the stream classes, served exactly the modelled reads
         st = get_hash_stream(ServedFile(data, caps) if short else io.BytesIO(data), name=alg)
         out = b""
-        for n in reads:
+        # the digest may be asked for at any moment (a progress report, a checkpoint): it is the digest of what has been
+        # fed so far, and asking does not freeze it.  One peek per case, at a position that varies with the case.
+        peek_at = case.get("id", 0) % (len(reads) + 1)
+        peek_ok = True
+        for j, n in enumerate(reads):
+            if j == peek_at and stream == "plain":
+                peek_ok = st.hash_value == ref_digest(alg, out)
             out += st.read(n * UNIT)
         while True:  # callers loop until an empty read
             extra = st.read(max(2, reads[-1] if reads else 2) * UNIT)
@@ -144,6 +150,7 @@ def run_case(case, tmp):
             st2.read(max(2, reads[0]) * UNIT * 2)
             lf_digest = st2.hash_value
         rec("stream.read", alg, st.hash_value, out == data, st.total_read == len(data), one, lf_digest)
+        recs[-1]["peek_ok"] = bool(peek_ok)
         # fobj_md5 with a constant chunk size
         if reads and len(set(reads)) == 1:
             chunk_units = reads[0]
